@@ -209,6 +209,44 @@ func TestVerifC19(t *testing.T) {
 			}
 		}
 	}
+	// ---- client role, configuration shapes that leave something out while verification is NOT switched off: no
+	// server name, no CA file. Either the configuration is refused, or whatever it produces still refuses every
+	// server whose certificate does not chain to a trusted CA.
+	for _, shape := range []struct {
+		name string
+		cfg  TLSConfig
+	}{
+		{"ca-file,no-server-name", TLSConfig{RemoteCAPath: ca1.Path}},
+		{"own-cert,ca-file,no-server-name", TLSConfig{CertificatePath: proxyCert.CertPath, KeyPath: proxyCert.KeyPath, RemoteCAPath: ca1.Path}},
+		{"own-cert,no-ca-file,no-server-name", TLSConfig{CertificatePath: proxyCert.CertPath, KeyPath: proxyCert.KeyPath}},
+		{"no-ca-file,server-name", TLSConfig{CAServerName: serverName}},
+		{"own-cert,no-ca-file,server-name", TLSConfig{CertificatePath: proxyCert.CertPath, KeyPath: proxyCert.KeyPath, CAServerName: serverName}},
+	} {
+		if !shape.cfg.IsEnabled() {
+			continue
+		}
+		cliCfg, err := GetClientTLSConfig(shape.cfg)
+		evals++
+		if err != nil || cliCfg == nil {
+			continue // refused at configuration time
+		}
+		for _, s := range serverCreds {
+			if s.chainOK {
+				continue
+			}
+			for _, maxVer := range []uint16{tls.VersionTLS13, tls.VersionTLS12} {
+				peer := &tls.Config{Certificates: []tls.Certificate{s.leaf.TLSCert}, MaxVersion: maxVer}
+				c2 := cliCfg.Clone()
+				c2.MaxVersion = maxVer
+				ok, _, _ := vfHandshake(peer, c2)
+				evals++
+				nontrivial++
+				if ok {
+					res.Violate("tls/client-accepts-unauthenticated-server/"+s.name+"/config:"+shape.name, fmt.Sprintf("client configuration {%s} (skipCAVerification not set) is accepted and completes a connection to a server presenting %s (TLS %#x)", shape.name, s.name, maxVer), map[string]any{"role": "client", "peer": s.name, "shape": shape.name, "tls": maxVer})
+				}
+			}
+		}
+	}
 	// ---- CA bundle variants (config time)
 	leafOnly := filepath.Join(dir, "leaf-only-bundle.pem")
 	b, _ := os.ReadFile(proxyCert.CertPath)
